@@ -62,10 +62,30 @@ def gen(g, count):
         log = []
         for d in g.r.sample(__import__('hv.gen', fromlist=['WINDOW']).WINDOW, g.r.randint(1, 3)):
             log.append((d, [(g.r.choice(foods), qty(g)) for _ in range(g.r.randint(0, 5))] if foods else [], []))
-        files = {b'food.yaml': g.render_book(book), b'log.yaml': g.render_log(log)}
+        # the date column is ISO whatever layout the log is written in, and wherever that layout comes from; a period does not
+        # change the rows that are left
+        from ..gen import LAYOUTS, fmt_date_layout
+        layout = g.r.choice(LAYOUTS) if g.r.random() < 0.4 else '2006/01/02'
+        files = {b'food.yaml': g.render_book(book), b'log.yaml': g.render_log(log, layout=layout)}
+        gf, env, cfg = {'today': fmt_date_layout(__import__('datetime').date(2021, 1, 28), layout)}, {}, None
+        if layout != '2006/01/02':
+            src = g.r.choice(['flag', 'env', 'cfg'])
+            if src == 'flag':
+                gf['dateFormat'] = layout
+            elif src == 'env':
+                env['dateFormat'] = layout
+            else:
+                cfg = {'where': 'flag', 'path': 'my.cfg', 'exists': True, 'entries': {'DateFormat': layout}}
+                gf['config'] = 'my.cfg'
         for path in (['csv', 'log'], ['csv', 'database'], ['csv', 'database-resolved']):
-            c = app(path, files, kind=' '.join(path), exact=False)
-            c.meta.update({'book': book, 'log': log})
+            sel = log
+            sf = {}
+            if path == ['csv', 'log'] and log and g.r.random() < 0.3:
+                b0 = g.r.choice(log)[0]
+                sf['begin'] = fmt_date_layout(b0, layout)
+                sel = [x for x in log if x[0] >= b0]
+            c = app(path, files, g=gf, s=sf, env=env, cfg=cfg, disk=(cfg is not None), kind=' '.join(path), exact=False)
+            c.meta.update({'book': book, 'log': sel})
             cases.append(c)
     return cases
 
